@@ -1,0 +1,107 @@
+//go:build verif
+
+package eviction
+
+// Machine-checked contracts for the gowp verifier (/verif). This file is comment-only and is
+// compiled only under the build tag "verif"; it declares nothing.
+
+// ---- CacheLRU ----------------------------------------------------------------------------------
+
+//@ type CacheLRU
+//@   invariant wf: forall i int :: 0 <= i && i < len(this.entries) ==> this.entries[i] != nil && this.entries[i].index == i
+//@   invariant keyed: forall i int :: 0 <= i && i < len(this.entries) ==> has(this.keys, this.entries[i].key)
+//@   invariant uniq: forall i int, j int :: 0 <= i && i < j && j < len(this.entries) ==> this.entries[i].key != this.entries[j].key
+
+//@ func (*CacheLRU).Len props C08
+//@   ensures result == len(cache.entries)
+//@   modifies nothing
+
+//@ func (*CacheLRU).Less props C08
+//@   requires 0 <= i && i < len(cache.entries) && 0 <= j && j < len(cache.entries)
+//@   requires cache.entries[i] != nil && cache.entries[j] != nil
+//@   ensures lru-order: result == (cache.entries[i].unixTime < cache.entries[j].unixTime)
+//@   modifies nothing
+
+//@ func (*CacheLRU).Swap props C08
+//@   requires 0 <= i && i < len(cache.entries) && 0 <= j && j < len(cache.entries)
+//@   preserves wf
+//@   ensures swapped: cache.entries[i] == old(cache.entries[j]) && cache.entries[j] == old(cache.entries[i])
+//@   ensures others: forall k int :: 0 <= k && k < len(cache.entries) && k != i && k != j ==> cache.entries[k] == old(cache.entries[k])
+//@   ensures samelen: cache.entries == old(cache.entries)
+//@   modifies cache.entries[*], EntryLRU.index
+
+//@ func (*CacheLRU).Push props C08
+//@   requires isstr(key)
+//@   preserves wf, keyed
+//@   ensures grown: len(cache.entries) == old(len(cache.entries)) + 1
+//@   ensures last: cache.entries[len(cache.entries)-1].key == asstr(key)
+//@   ensures prefix: forall k int :: 0 <= k && k < old(len(cache.entries)) ==> cache.entries[k] == old(cache.entries[k])
+//@   modifies cache.entries, cache.entries[*], cache.keys[*]
+
+//@ func (*CacheLRU).Pop props C08
+//@   requires len(cache.entries) > 0
+//@   preserves wf
+//@   ensures shrunk: len(cache.entries) == old(len(cache.entries)) - 1
+//@   ensures popped: result == boxed(old(cache.entries[len(cache.entries)-1].key))
+//@   ensures unkeyed: !has(cache.keys, asstr(result))
+//@   ensures prefix: forall k int :: 0 <= k && k < len(cache.entries) ==> cache.entries[k] == old(cache.entries[k])
+//@   modifies cache.entries, cache.entries[*], cache.keys[*], EntryLRU.index
+
+//@ func (*CacheLRU).Flush props C08,C20
+//@   ensures emptied: len(cache.entries) == 0
+//@   ensures nokeys: forall k string :: !has(cache.keys, k)
+//@   modifies cache.entries, cache.entries[*], cache.keys[*]
+
+//@ func (*CacheLRU).contains props C08
+//@   ensures result == has(cache.keys, key)
+//@   modifies nothing
+
+// ---- CacheLFU ----------------------------------------------------------------------------------
+
+//@ type CacheLFU
+//@   invariant wf: forall i int :: 0 <= i && i < len(this.entries) ==> this.entries[i] != nil && this.entries[i].index == i
+//@   invariant keyed: forall i int :: 0 <= i && i < len(this.entries) ==> has(this.keys, this.entries[i].key)
+
+//@ func (*CacheLFU).Len props C08
+//@   ensures result == len(cache.entries)
+//@   modifies nothing
+
+//@ func (*CacheLFU).Less props C08
+//@   requires 0 <= i && i < len(cache.entries) && 0 <= j && j < len(cache.entries)
+//@   requires cache.entries[i] != nil && cache.entries[j] != nil
+//@   ensures lfu-order: cache.entries[i].count != cache.entries[j].count ==> result == (cache.entries[i].count < cache.entries[j].count)
+//@   modifies nothing
+
+//@ func (*CacheLFU).Swap props C08
+//@   requires 0 <= i && i < len(cache.entries) && 0 <= j && j < len(cache.entries)
+//@   preserves wf
+//@   ensures swapped: cache.entries[i] == old(cache.entries[j]) && cache.entries[j] == old(cache.entries[i])
+//@   ensures others: forall k int :: 0 <= k && k < len(cache.entries) && k != i && k != j ==> cache.entries[k] == old(cache.entries[k])
+//@   ensures samelen: cache.entries == old(cache.entries)
+//@   modifies cache.entries[*], EntryLFU.index
+
+//@ func (*CacheLFU).Push props C08
+//@   requires isstr(key)
+//@   preserves wf, keyed
+//@   ensures grown: len(cache.entries) == old(len(cache.entries)) + 1
+//@   ensures last: cache.entries[len(cache.entries)-1].key == asstr(key) && cache.entries[len(cache.entries)-1].count == 1
+//@   ensures prefix: forall k int :: 0 <= k && k < old(len(cache.entries)) ==> cache.entries[k] == old(cache.entries[k])
+//@   modifies cache.entries, cache.entries[*], cache.keys[*]
+
+//@ func (*CacheLFU).Pop props C08
+//@   requires len(cache.entries) > 0
+//@   preserves wf
+//@   ensures shrunk: len(cache.entries) == old(len(cache.entries)) - 1
+//@   ensures popped: result == boxed(old(cache.entries[len(cache.entries)-1].key))
+//@   ensures unkeyed: !has(cache.keys, asstr(result))
+//@   ensures prefix: forall k int :: 0 <= k && k < len(cache.entries) ==> cache.entries[k] == old(cache.entries[k])
+//@   modifies cache.entries, cache.entries[*], cache.keys[*], EntryLFU.index
+
+//@ func (*CacheLFU).Flush props C08,C20
+//@   ensures emptied: len(cache.entries) == 0
+//@   ensures nokeys: forall k string :: !has(cache.keys, k)
+//@   modifies cache.entries, cache.entries[*], cache.keys[*]
+
+//@ func (*CacheLFU).contains props C08
+//@   ensures result == has(cache.keys, key)
+//@   modifies nothing
